@@ -28,6 +28,12 @@ PKGS = {
                                    ]},
                                ]},
     "leptond-main": {"dir": "cmd/leptond", "name": "main", "harness": "leptond-main", "templates": ["kit"]},
+    # same package built with the one-minute file rotation constant shortened to 2 s (a generated
+    # copy of the working tree's main.go that differs in that constant only), so that rotation is
+    # crossed within seconds
+    "writer-main-fastrotate": {"dir": "cmd/thermal-writer", "name": "main", "harness": "writer-main", "templates": ["kit"],
+                               "src_patches": [{"file": "{REPO}/cmd/thermal-writer/main.go",
+                                                "edits": [("const newFileInterval = time.Minute", "const newFileInterval = 2 * time.Second")]}]},
     "writer-main": {"dir": "cmd/thermal-writer", "name": "main", "harness": "writer-main", "templates": ["kit"]},
 }
 
@@ -38,9 +44,9 @@ COMMON_ASSUME = [
 
 FSM_RULE = ("Real MotionProcessor fed by a scripted parser; cases: (1) ~330 configs (fps 1-3, preview 0-2, trigger 0-3, 0<=min<=max<=3) x all motion bit-strings of length 11 (thorough 16); "
             "(2) same configs x all strings of length 7 (thorough 10) x one disturbance {window closed, disk check fails, file creation fails, bad frame, reset} at every position; "
-            "(3) seeded random scripts (50-2000 events, fps<=9, preview<=5, max<=12s, realistic 3/20 and 10/600 settings) with bad frames, resets and refusals; (4) trigger-position sweep for cap 1..24.")
+            "(3) seeded random scripts (50-2000 events, fps<=9, preview<=5, max<=12s, realistic 3/20 and 10/600 settings) with bad frames, resets and refusals, every fifth one additionally with failing post-trigger WriteFrame calls (5/30/100 %); (4) trigger-position sweep for cap 1..24.")
 FSM_ASSUME = COMMON_ASSUME + ["the driver aims at motion with a toggling hot pixel, but oracles take the observed MotionDetected callbacks as input"]
-FSM_JOB = {"pkg": "motion", "test": "TestVerif_FSM", "shards": (16, 16), "timeout": (300, 2400), "require": ["recordings", "motion_frames_observed"]}
+FSM_JOB = {"pkg": "motion", "test": "TestVerif_FSM", "shards": (16, 16), "timeout": (300, 3000), "require": ["recordings", "motion_frames_observed", "post_trigger_write_faults"]}
 
 TH_RULE = ("Real ThrottledRecorder (NewThrottledRecorderWithClock, fake clock) between a scripted caller and a monitor sink. Cases: (1) seeded random schedules from (Start Write* Stop)* with 5..6000 ops, "
            "bucket 1-60 s (and the shipped 600 s), refill 1 s..1 h, min+preview 1-20 s, fps 1-9, wrapped-start failure rate 0/10/40 %; (2) wrapped start failing at call index 0..11; "
@@ -191,7 +197,7 @@ PROPS = {
         "level_text": "Offline differential checker: decode everything the daemon wrote and compare with a reference pipeline composed from models that the unit-tier checks validated against the real components.",
         "level_note": "go-cptv and go-config are pinned dependencies and part of the system under observation.",
         "technique": "offline differential checker (decoded output vs reference pipeline)",
-        "jobs": [{"pkg": "recorder-main", "test": "TestVerif_C11", "race": True, "shards": (16, 16), "timeout": (600, 3000), "require": ["connections", "frames_compared", "motion_files", "continuous_files", "mode_0_connections", "mode_1_connections", "mode_2_connections", "mode_3_connections", "throttle_resumed_files_checked", "predicted_motion_frames"]}],
+        "jobs": [{"pkg": "recorder-main", "test": "TestVerif_C11", "race": True, "shards": (16, 16), "timeout": (600, 3000), "require": ["connections", "frames_compared", "motion_files", "continuous_files", "mode_0_connections", "mode_1_connections", "mode_2_connections", "mode_3_connections", "throttle_resumed_files_checked", "predicted_motion_frames", "connections_after_a_reconnect"]}],
     },
     "C12": {
         "title": "Sinks see writes only inside start..stop; faults never crash the pipeline",
@@ -288,14 +294,14 @@ PROPS = {
         "level_note": "Throttling independence is structural here (the continuous sink is never wrapped); the pipeline job checks it through main.go's wiring.",
         "technique": "offline trace checker + paired-execution comparator on monitor sinks",
         "jobs": [{"pkg": "motion", "test": "TestVerif_C17", "shards": (16, 16), "timeout": (300, 2400), "require": ["continuous_files", "test_recordings_completed", "test_recordings_overlapping_motion_recording"]},
-                 {"pkg": "recorder-main", "test": "TestVerif_C17Pipe", "shards": (8, 16), "timeout": (300, 1800), "require": ["pipeline_runs", "pipeline_continuous_files", "pipeline_test_recordings"]}],
+                 {"pkg": "recorder-main", "test": "TestVerif_C17Pipe", "shards": (8, 16), "timeout": (300, 1800), "require": ["pipeline_runs", "pipeline_continuous_files", "pipeline_test_recordings", "pipeline_runs_after_a_reconnect"]}],
     },
     "C18": {
         "title": "thermal-writer stores every frame once, in order, in well-formed CPTR files",
         "level": "exploration",
         "rule": "Under -race: real thermal-writer handleConn(conn, conf, false) over net.Pipe with a fresh output directory per connection. Grid: frame sizes {5,16,1000,39040,655360} x frame counts {0,1,255,256,257,2000 (300 for the largest)} x "
                 "hook schedules {none, writer stalled until all 256 buffers are in flight, reader stalled, alternating, random us sleeps/Gosched}, connection closed between frames or in mid-frame, socket writes whole / 1 byte / random; "
-                "plus seeded random cases; GOMAXPROCS in {1,2,4,16}; thorough adds one 65 s trickle run across the one-minute file rotation. Frames are id-stamped PRNG blocks. "
+                "plus seeded random cases; GOMAXPROCS in {1,2,4,16}; thorough adds one 65 s trickle run across the real one-minute file rotation; a second job runs paced connections of 5-7 s against a build whose rotation constant is shortened to 2 s (generated copy of main.go differing in that constant only), so that frames before, across and after rotations and the final flush after a rotation are checked in every run. Frames are id-stamped PRNG blocks. "
                 "Oracles: independent CPTR parser (magic, version 2, header fields T/E/B/Z/X/Y/C=0/D/I, then F sections with one length field, no trailing bytes); concatenated payloads == frames sent (count, order, bytes); partial last frame not stored; "
                 "event-log conservation at hooks (filled = written + in flight <= 256; at writer exit written == queued); handleConn and writer must finish; race detector. A connection is a case.",
         "assumptions": COMMON_ASSUME + ["writer() panics on I/O errors by design; disk-full behaviour is not in the property", "file names have 1 s resolution: one output directory per connection"],
@@ -303,7 +309,9 @@ PROPS = {
         "level_note": "Interleavings are sampled through hook-injected stalls and GOMAXPROCS variation, not enumerated.",
         "technique": "offline file checker + hook-based conservation monitor + Go race detector",
         "jobs": [{"pkg": "writer-main", "test": "TestVerif_C18", "race": True, "shards": (16, 16), "gomaxprocs": [1, 2, 4, 16], "timeout": (900, 3000), "hang_is_violation": True,
-                  "require": ["connections", "frames_verified", "buffers_recycled", "runs_reaching_256_in_flight"]}],
+                  "require": ["connections", "frames_verified", "buffers_recycled", "runs_reaching_256_in_flight"]},
+                 {"pkg": "writer-main-fastrotate", "test": "TestVerif_C18Rotate", "race": True, "shards": (4, 8), "timeout": (600, 1800), "hang_is_violation": True,
+                  "require": ["runs_crossing_file_rotation", "frames_verified"]}],
     },
     "C19": {
         "title": "Frame ring buffer returns exactly the retained history, oldest first",
